@@ -794,14 +794,14 @@ def main():
         while pending or running:
             # admission by half the declared cap: caps are hard limits (RLIMIT_AS), typical peaks are
             # far below them (evidence records peak_rss_mb per harness)
-            used = sum(h.mem_gb / 2 for h in running.values())
+            used = sum(h.mem_gb * 0.7 for h in running.values())
             started = False
             for h in list(pending):
-                if len(running) < args.jobs and (used + h.mem_gb / 2 <= mem_budget or not running):
+                if len(running) < args.jobs and (used + h.mem_gb * 0.7 <= mem_budget or not running):
                     fut = ex.submit(run_cbmc, h, info[h.name], workdir)
                     running[fut] = h
                     pending.remove(h)
-                    used += h.mem_gb / 2
+                    used += h.mem_gb * 0.7
                     started = True
             if not running:
                 continue
